@@ -28,6 +28,9 @@ type GenCfg struct {
 	TieWeights             bool   // sibling accounts with equal amounts
 	SameDayPriceOK         bool   // (never: excluded by C05) two prices for a pair on one day
 	Ancient                bool   // dates before the year 1000
+	PNegPrice              float64 // rate of negative quotes
+	MinTxn                 int
+	UnicodeDesc            bool // descriptions full of multi-byte characters
 }
 
 func DefaultGen() GenCfg {
@@ -162,7 +165,7 @@ func gen1(r *simrt.Rand, c GenCfg) *Journal {
 		g.dirs = append(g.dirs, Dir{Kind: "open", Date: od, Account: a})
 	}
 	hasAccrual := false
-	ntx := r.Range(0, c.MaxTxn)
+	ntx := r.Range(c.MinTxn, c.MaxTxn)
 	if r.P(0.9) && ntx == 0 {
 		ntx = 1
 	}
@@ -190,6 +193,9 @@ func gen1(r *simrt.Rand, c GenCfg) *Journal {
 			}
 		}
 		dir := Dir{Kind: "txn", Date: d, Desc: descPool[r.Intn(len(descPool))], QStyle: r.Intn(3)}
+		if c.UnicodeDesc && r.P(0.8) {
+			dir.Desc = []string{"Zürcher Gebühr für März", "日本旅行の経費", "Café crème à l'île", "Ærøskøbing færge", "über öffentliche Straßen"}[r.Intn(5)] + strings.Repeat("é", r.Intn(4))
+		}
 		nb := 1
 		if r.P(0.3) {
 			nb = r.Range(2, 3)
@@ -418,6 +424,9 @@ func genPrices(g *genState, j *Journal, ps []Posting) {
 		depth[g.coms[i]] = depth[p] + 1
 	}
 	price := func() Q {
+		if g.c.PNegPrice > 0 && r.P(g.c.PNegPrice) {
+			return -Q(r.Range(1, 9999)) * 100 // a negative quote (crude oil in April 2020): legal, only zero is rejected
+		}
 		switch r.Intn(4) {
 		case 0:
 			return Q(r.Range(1, 9999)) * 100 // x.xx
@@ -491,6 +500,40 @@ type Layout struct {
 	// can end in the middle of an include directive's line).
 	IncludesLast   bool
 	NoFinalNewline bool
+	// Diamond lists additional include edges (from file, to file): the file is then
+	// reached along two paths and loaded twice, which is legal as long as it holds
+	// only directives that may be repeated (prices, assertions).
+	Diamond [][2]int `json:",omitempty"`
+}
+
+// AddDiamond moves the price directives (and, at some rate, the assertions) into a
+// file of their own that two different files include. It reports whether it did.
+func (l *Layout) AddDiamond(r *simrt.Rand, j *Journal) bool {
+	nf := len(l.Names)
+	if nf < 2 {
+		return false
+	}
+	withAsserts := r.P(0.5)
+	moved := 0
+	for pos, di := range l.Order {
+		k := j.Dirs[di].Kind
+		if k == "price" || (withAsserts && k == "assert") {
+			l.File[pos] = nf
+			moved++
+		}
+	}
+	if moved == 0 {
+		return false
+	}
+	p1 := r.Intn(nf)
+	p2 := r.Intn(nf - 1)
+	if p2 >= p1 {
+		p2++
+	}
+	l.Parent = append(l.Parent, p1)
+	l.Names = append(l.Names, []string{"shared/prices.knut", "common.knut", "sub1/shared.knut"}[r.Intn(3)])
+	l.Diamond = append(l.Diamond, [2]int{p2, nf})
+	return true
 }
 
 // CanonLayout is the single-file chronological layout.
@@ -533,6 +576,8 @@ func RandLayout(r *simrt.Rand, j *Journal, maxFiles int) *Layout {
 	l.Parent = []int{-1}
 	l.Names = []string{"main.knut"}
 	dirOf := []string{"."}
+	common := r.P(0.3)
+	used := map[string]bool{"main.knut": true}
 	for f := 1; f < nf; f++ {
 		p := r.Intn(f)
 		if r.P(0.5) {
@@ -549,7 +594,16 @@ func RandLayout(r *simrt.Rand, j *Journal, maxFiles int) *Layout {
 			}
 		}
 		dirOf = append(dirOf, d)
-		l.Names = append(l.Names, path.Join(d, fmt.Sprintf("f%d.knut", f)))
+		name := path.Join(d, fmt.Sprintf("f%d.knut", f))
+		if common {
+			// the same few file names in every directory, as in a tree with one folder per year
+			alt := path.Join(d, []string{"prices.knut", "transactions.knut", "accounts.knut", "main.knut"}[r.Intn(4)])
+			if !used[alt] {
+				name = alt
+			}
+		}
+		used[name] = true
+		l.Names = append(l.Names, name)
 	}
 	for i := range l.File {
 		l.File[i] = r.Intn(nf)
@@ -614,6 +668,9 @@ func (l *Layout) Files(j *Journal) map[string]string {
 			}
 		}
 		fmt.Fprintf(&incs[p], "include \"%s\"\n", rel)
+	}
+	for _, e := range l.Diamond {
+		fmt.Fprintf(&incs[e[0]], "include \"%s\"\n", relPath(path.Dir(l.Names[e[0]]), l.Names[e[1]]))
 	}
 	if !l.IncludesLast {
 		for f := 0; f < nf; f++ {
